@@ -88,7 +88,7 @@ def write_batches(pid, fams, per_batch):
     flush()
     return batches
 
-def validate_batches(batches, module, jobs=8, timeout=900):
+def validate_batches(batches, module, jobs=8, timeout=300):
     res = T.validate_many([b[0] for b in batches], module=module, jobs=jobs, timeout=timeout)
     return res
 
@@ -203,7 +203,7 @@ def main():
     if retry:
         log("[%s] re-validating %d families one by one" % (pid, len(retry)))
         paths = [single_trace(pid, good[i], "r%04d" % i) for i in retry]
-        rr = T.validate_many(paths, module=module, jobs=plan.get("tlc_jobs", 8), timeout=600)
+        rr = T.validate_many(paths, module=module, jobs=plan.get("tlc_jobs", 8), timeout=150)
         for i, r in zip(retry, rr):
             if r["error"] is not None:
                 dropped += 1
@@ -220,10 +220,18 @@ def main():
     if dropped == len(good):
         log("every family was dropped"); sys.exit(2)
     # --- classification
-    remap = plan.get("remap", lambda v: v.get("p"))
+    remap0 = plan.get("remap", lambda v: v.get("p"))
+    byfam = {}
+    for i, v in viols:
+        byfam.setdefault(i, []).append(v)
+    def remap(v, fam=None):
+        try:
+            return remap0(v, fam or [])
+        except TypeError:
+            return remap0(v)
     mine, others = {}, {}
     for i, v in viols:
-        p = remap(v)
+        p = remap(v, byfam.get(i))
         v = dict(v); v["p_orig"] = v.get("p"); v["p"] = p
         (mine if p == pid else others).setdefault(i, []).append(v)
     os.makedirs(os.path.join(VERIF, "build", "last"), exist_ok=True)
@@ -242,7 +250,7 @@ def main():
         if "error" not in again:
             p2 = single_trace(pid, again, "c%04d" % i)
             r2 = T.validate(p2, module=module)
-            vs2 = [dict(v, p=remap(v)) for v in r2["viols"]]
+            vs2 = [dict(v, p=remap(v, r2["viols"])) for v in r2["viols"]]
             if r2["rejected_at"] is not None:
                 vs2.append({"p": plan.get("reject_owner", pid), "rejected": True})
             ok2 = any(v["p"] == pid for v in vs2)
